@@ -427,6 +427,42 @@ pub fn machine_histories(tier: Tier) -> Vec<(String, Vec<Op>)> {
             frontier = next;
         }
     }
+    // twins: values the library's == cannot tell apart but a user can (display name of a ref, sign
+    // of zero, zone of an instant), bare and inside a dict / list / grid; one overwrites the other
+    // through every overwriting operation
+    {
+        let groups: Vec<Vec<&str>> = vec![
+            vec!["@r", "@r \"A\"", "@r \"B\""],
+            vec!["0", "-0"],
+            vec!["0kW", "-0kW"],
+            vec!["C(0,1)", "C(-0,1)"],
+            vec!["2021-01-01T00:00:00Z", "2020-12-31T19:00:00-05:00 New_York", "2021-01-01T01:00:00+01:00 Paris"],
+        ];
+        let mut k = 0usize;
+        for g in &groups {
+            let mut forms: Vec<Vec<String>> = vec![];
+            forms.push(g.iter().map(|x| x.to_string()).collect());
+            forms.push(g.iter().map(|x| format!("{{a:{x} b:1}}")).collect());
+            forms.push(g.iter().map(|x| format!("[{x},1]")).collect());
+            forms.push(g.iter().map(|x| format!("ver:\"3.0\"\na,b\n{x},1\n")).collect());
+            forms.push(g.iter().map(|x| format!("{{a:{{b:[{x}]}}}}")).collect());
+            for form in forms {
+                for x in &form {
+                    for y in &form {
+                        if x == y {
+                            continue;
+                        }
+                        let (cx, cy) = (Ctor::Zinc(leak(x.clone())), Ctor::Zinc(leak(y.clone())));
+                        out.push((format!("twins:{k}:list-set"), vec![Op::Make(0, Ctor::List), Op::Make(1, cx.clone()), Op::Make(2, cy.clone()), Op::Push(0, 1), Op::SetAt(0, 0, 2), Op::GetAt(0, 0)]));
+                        out.push((format!("twins:{k}:list-push-set"), vec![Op::Make(0, Ctor::List), Op::Make(1, cx.clone()), Op::Make(2, cy.clone()), Op::Push(0, 2), Op::Push(0, 1), Op::SetAt(0, 1, 2), Op::SetAt(0, 0, 1)]));
+                        out.push((format!("twins:{k}:dict-insert"), vec![Op::Make(0, Ctor::Dict), Op::Make(1, cx.clone()), Op::Make(2, cy.clone()), Op::Insert(0, b"k", 1), Op::Insert(0, b"k", 2), Op::GetKey(0, b"k")]));
+                        out.push((format!("twins:{k}:rows"), vec![Op::Make(0, Ctor::List), Op::Make(1, cx), Op::Make(2, cy), Op::Push(0, 1), Op::Push(0, 2), Op::Destroy(1), Op::Make(1, Ctor::GridFromRows(0))]));
+                        k += 1;
+                    }
+                }
+            }
+        }
+    }
     for (i, c) in exotic_ctors().into_iter().enumerate() {
         out.push((format!("exotic:{i}"), vec![Op::Make(0, c.clone())]));
         // a constructor the model rejects produces no handle to go on with
@@ -444,7 +480,7 @@ pub fn machine_histories(tier: Tier) -> Vec<(String, Vec<Op>)> {
 pub fn run(tier: Tier) -> i32 {
     let mut run = Run::new("C17", tier, "model_checking");
     let depth = tier.pick(4usize, 5);
-    run.rule = format!("model: pool of {SLOTS} value handles + 1 filter handle; ~35 constructors (every kind; valid, invalid and non-UTF-8 arguments; from Zinc / JSON text; from other handles: utc/tz datetime, grid from rows with/without meta) and every list/dict/grid/datetime/filter operation over slot indices, list index {{0,1,7}}, keys {{a,b,invalid UTF-8}}, 5 filter texts. BFS over canonical model states to depth {depth}; every transition = one real extern \"C\" call on a real pool rebuilt by replaying the state's shortest history; after every step: return value = model (documented sentinel on failure), error message retrievable exactly once iff failure, whole pool deep-equal to the model (failure leaves all handles unchanged), borrowed entry pointers dereferenced immediately; after the last step every live handle is inspected with all 18 predicates and 35 getters incl. to_zinc_string / to_json_string against the Rust encoders. Symmetric states merged by constructing into the first free slot; plus three focused machines searched over canonical states — a list (three values pushed, set, removed, read at every index 0..3, the list into itself; depth 5/6), a dict (camelCase, empty, non-ASCII, blank-containing, 300-byte and invalid keys, overwriting, the dict into itself; depth 3/4), a date + time pair (utc / tz constructors with good and bad zones between failing calls, date / time getters into every handle; depth 4/5), a four-row sparse grid (rows into a fresh handle, a dict handle and the grid itself, two filters, first/all matches into every handle; depth 3/4) — and 51 exotic values (interior NUL in every string position, 210 kB and non-ASCII strings, extreme numbers, dates, times, coordinates, multi-alias units) alone, in a list and in a dict, every live handle inspected with all getters after every step; all machine histories and every history of <= 3 calls of the general alphabet once more with a caller that never fetches the error message between calls (same return values, same pool); borrowed entry pointers re-read after every read-only call on their container, every string getter called twice with both results destroyed; plus one sweep of every string argument of every function with bytes that are not UTF-8 (sentinel, message, arguments unchanged)");
+    run.rule = format!("model: pool of {SLOTS} value handles + 1 filter handle; ~35 constructors (every kind; valid, invalid and non-UTF-8 arguments; from Zinc / JSON text; from other handles: utc/tz datetime, grid from rows with/without meta) and every list/dict/grid/datetime/filter operation over slot indices, list index {{0,1,7}}, keys {{a,b,invalid UTF-8}}, 5 filter texts. BFS over canonical model states to depth {depth}; every transition = one real extern \"C\" call on a real pool rebuilt by replaying the state's shortest history; after every step: return value = model (documented sentinel on failure), error message retrievable exactly once iff failure, whole pool deep-equal to the model (failure leaves all handles unchanged), borrowed entry pointers dereferenced immediately; after the last step every live handle is inspected with all 18 predicates and 35 getters incl. to_zinc_string / to_json_string against the Rust encoders. Symmetric states merged by constructing into the first free slot; plus three focused machines searched over canonical states — a list (three values pushed, set, removed, read at every index 0..3, the list into itself; depth 5/6), a dict (camelCase, empty, non-ASCII, blank-containing, 300-byte and invalid keys, overwriting, the dict into itself; depth 3/4), a date + time pair (utc / tz constructors with good and bad zones between failing calls, date / time getters into every handle; depth 4/5), a four-row sparse grid (rows into a fresh handle, a dict handle and the grid itself, two filters, first/all matches into every handle; depth 3/4) — and 51 exotic values (interior NUL in every string position, 210 kB and non-ASCII strings, extreme numbers, dates, times, coordinates, multi-alias units) alone, in a list and in a dict, every live handle inspected with all getters after every step; twins — values that == cannot tell apart but a user can (display name of a ref, sign of zero with and without unit and in a Coord, the zone of an instant), bare and inside a dict / list / grid / nested dict — where one overwrites the other by set-at, insert under the same key, push+set, and as rows of a grid (~320 histories); all machine histories and every history of <= 3 calls of the general alphabet once more with a caller that never fetches the error message between calls (same return values, same pool); borrowed entry pointers re-read after every read-only call on their container, every string getter called twice with both results destroyed; plus one sweep of every string argument of every function with bytes that are not UTF-8 (sentinel, message, arguments unchanged)");
     run.assume("the model is written from the header documentation and the Rust API (Appendix C); equal model pools have equal futures (the API has no other state than the handles and the thread-local last error)");
     crate::engine::quiet_panics();
     let (search, l) = bfs(depth, tier.pick(1_500_000, 6_000_000), &visit);
@@ -491,7 +527,7 @@ pub fn run(tier: Tier) -> i32 {
         }
     });
     run.absorb(l);
-    for fam in ["list", "dict", "grid", "datetime", "exotic"] {
+    for fam in ["list", "dict", "grid", "datetime", "exotic", "twins"] {
         run.require(run.counter(&format!("machine:{fam}")) > 40, &format!("machine {fam} too small"));
     }
     // borrowed pointers across read-only calls; returned strings are fresh allocations
